@@ -465,7 +465,7 @@ func TestC02Child(t *testing.T) {
 // listing it cannot hide any other source of non-determinism) ----
 
 type c02StructCase struct {
-	Form string `json:"form"` // struct | pointer | in-array | in-map
+	Form string `json:"form"`           // struct | pointer | in-array | in-map
 	Site string `json:"site,omitempty"` // "" (printed by an object) | append | join | conversion-error | include-error | divisor-error | contains
 }
 
